@@ -3814,13 +3814,12 @@ where
         Ok(())
       }
       Value::Integer(i) => {
-        if is_ident_uint_data_type(self.state.cddl, ident) {
-          if i128::from(*i).is_negative() {
+        if ident_numeric_kind(self.state.cddl, ident).is_some_and(NumericKind::admits_int) {
+          // sign matters: uint / unsigned are major type 0, nint is major type 1
+          if !numeric_ident_matches_cbor_value(self.state.cddl, ident, &self.cbor) {
             self.add_error(format!("expected type {}, got {:?}", ident, self.cbor));
           }
 
-          Ok(())
-        } else if ident_numeric_kind(self.state.cddl, ident).is_some_and(NumericKind::admits_int) {
           Ok(())
         } else if is_ident_time_data_type(self.state.cddl, ident) {
           if let chrono::LocalResult::None =
